@@ -522,6 +522,8 @@ func runC09(c *Ctx) {
 	defer runC09AmbiguousEOF(c)
 	defer runC09NoFailureAsEOF(c)
 	defer runC09CompressedFlagDeclared(c)
+	defer runC09NoFinaliseOnPanic(c)
+	defer runC09DeclaredLengthHonoured(c)
 	// ---------------------------------------------------------------- C09.5
 	c.Rule("C09.5", "a missing grpc-status is an error", 1)
 	ext := p.MustFunc("grpcExtractErrorFromTrailer")
@@ -896,5 +898,183 @@ func runC09CompressedFlagDeclared(c *Ctx) {
 	}
 	if n < 4 {
 		c.Bad("C09.9", "package", "flag-vs-declared", token.NoPos, "fewer than four envelope decode sites on the data paths ("+itoa(n)+"): shape changed")
+	}
+}
+
+// runC09NoFinaliseOnPanic: C09.10 (defect D52).  Finalising the response writer flushes what the
+// backend wrote so far, decodes it and completes the response (status, Content-Length, end of
+// stream).  That is right when the handler RETURNED.  When it aborted with a panic
+// (http.ErrAbortHandler: a reverse proxy whose upstream broke off in mid-message) the partial
+// data must not be made into a well-formed success.  A plain `defer rw.close()` also runs while
+// the panic unwinds; so the finaliser is called from a deferred function, and there only on the
+// path that knows recover() returned nil.
+func runC09NoFinaliseOnPanic(c *Ctx) {
+	p := c.P
+	c.Rule("C09.10", "the response is finalised only when the handler returned, never while its panic unwinds", 1)
+	closeFn := p.MustFunc("(*responseWriter).close")
+	n := 0
+	for _, fn := range p.Funcs {
+		if !p.inScope(fn) {
+			continue
+		}
+		ForEachInstr(fn, func(in ssa.Instruction) {
+			d, ok := in.(*ssa.Defer)
+			if !ok {
+				return
+			}
+			for _, cal := range p.CalleesAt(d) {
+				if cal == closeFn {
+					n++
+					c.Bad("C09.10", FuncName(fn), "finaliser-not-on-panic", d.Pos(),
+						"the response writer's close is deferred directly: it also runs while a handler's panic unwinds, and turns a response that was aborted in the middle of a message into a complete, successful one")
+					continue
+				}
+				if cal.Parent() != fn {
+					continue
+				}
+				for _, call := range Calls(cal) {
+					if call.Common().StaticCallee() != closeFn {
+						continue
+					}
+					n++
+					guarded := false
+					for _, f := range FactsAt(call.Block()) {
+						cmp, isCmp := f.AsCmp()
+						if !isCmp || cmp.Op != token.EQL || !IsNilConst(cmp.Y) {
+							continue
+						}
+						for _, l := range Origins(cmp.X) {
+							if l.Kind == "call" && IsCallTo(l.Call, "builtin recover") {
+								guarded = true
+							}
+						}
+					}
+					c.Check(guarded, "C09.10", FuncName(fn), "finaliser-not-on-panic", call.Pos(),
+						"the deferred function finalises the response only where recover() is known to have returned nil",
+						"the deferred function finalises the response without having ruled out a panic in flight (no dominating recover() == nil): a response aborted in the middle of a message is completed into a success")
+				}
+			}
+		})
+	}
+	if n == 0 {
+		c.Bad("C09.10", "(*responseWriter).close", "finaliser-not-on-panic", token.NoPos, "the response writer's close is not deferred anywhere: shape changed")
+	}
+}
+
+// runC09DeclaredLengthHonoured: C09.11 (defect D56).  WriteHeader parses the backend's
+// Content-Length into responseWriter.contentLen and removes the header.  For a backend without
+// envelopes that number is the only framing there is: a body that stops short of it was cut in
+// the middle of the message.  So (a) the re-framing writer counts with 'no bound' (-1) only where
+// it is known that no length was declared, and (b) the transcoding writer, when it finalises an
+// un-enveloped body, decodes what it collected only after comparing the collected length with
+// the declared one.
+func runC09DeclaredLengthHonoured(c *Ctx) {
+	p := c.P
+	c.Rule("C09.11", "an un-enveloped response body is held to the Content-Length its backend declared", 2)
+	clF := p.MustField("responseWriter", "contentLen")
+	fromCL := func(v ssa.Value) bool {
+		for _, l := range Origins(v) {
+			if l.Kind == "load" && l.Field == clF {
+				return true
+			}
+		}
+		return false
+	}
+	// (a) byte counters of the re-framing writer
+	ewT := types.NewPointer(p.MustNamed("envelopingWriter"))
+	remF := p.MustField("envelopingWriter", "remainingBytes")
+	initFn := p.MethodOf(ewT, "maybeInit")
+	if initFn == nil {
+		fatalf("anchor=envelopingWriter.maybeInit not found")
+	}
+	nA := 0
+	for _, fn := range p.Family(initFn) {
+		for _, st := range StoresToField(fn, remF) {
+			k, isK := ConstInt(st.Val)
+			if !isK || k != -1 {
+				continue
+			}
+			nA++
+			unknown := false
+			for _, f := range p.FactsAtInter(st.Block()) {
+				cmp, ok := f.AsCmp()
+				if !ok {
+					continue
+				}
+				if kk, isKK := ConstInt(cmp.Y); isKK && fromCL(cmp.X) && (cmp.Op == token.EQL && kk == -1 || cmp.Op == token.LSS && kk == 0) {
+					unknown = true
+				}
+			}
+			c.Check(unknown, "C09.11", FuncName(fn), "unbounded-only-without-declared-length", st.Pos(),
+				"the byte counter is set to 'no bound' only where no Content-Length was declared",
+				"the re-framing writer counts this body with 'no bound' (-1) although the backend may have declared a Content-Length: a body cut short of it is forwarded as complete (with a fresh, matching Content-Length)")
+		}
+	}
+	if nA == 0 {
+		c.Bad("C09.11", FuncName(initFn), "unbounded-only-without-declared-length", initFn.Pos(), "no 'no bound' initialisation of the byte counter found: shape changed")
+	}
+	// (b) the transcoding writer's finaliser
+	twT := types.NewPointer(p.MustNamed("transformingWriter"))
+	closeFn := p.MethodOf(twT, "Close")
+	flushFn := p.MethodOf(twT, "flushMessage")
+	expF := p.MustField("transformingWriter", "expectingBytes")
+	if closeFn == nil || flushFn == nil {
+		fatalf("anchor=transformingWriter.Close/flushMessage not found")
+	}
+	nB := 0
+	for _, fn := range p.Family(closeFn) {
+		// a comparison of a collected length with the declared one exists
+		hasCmp := false
+		ForEachInstr(fn, func(in ssa.Instruction) {
+			bo, ok := in.(*ssa.BinOp)
+			if !ok || (bo.Op != token.NEQ && bo.Op != token.EQL) {
+				return
+			}
+			lenSide := func(v ssa.Value) bool {
+				for _, l := range Origins(v) {
+					if l.Kind == "call" && IsCallTo(l.Call, "(*bytes.Buffer).Len", "builtin len") {
+						return true
+					}
+				}
+				return false
+			}
+			if fromCL(bo.X) && lenSide(bo.Y) || fromCL(bo.Y) && lenSide(bo.X) {
+				hasCmp = true
+			}
+		})
+		for _, call := range Calls(fn) {
+			if call.Common().StaticCallee() != flushFn {
+				continue
+			}
+			unenv := false
+			for _, f := range p.FactsAtInter(call.Block()) {
+				if cmp, ok := f.AsCmp(); ok && cmp.Op == token.EQL && LoadedField(cmp.X) == expF {
+					if k, isK := ConstInt(cmp.Y); isK && k == -1 {
+						unenv = true
+					}
+				}
+			}
+			if !unenv {
+				continue
+			}
+			nB++
+			mentions := func(in ssa.Instruction) bool {
+				iff, ok := in.(*ssa.If)
+				if !ok {
+					return false
+				}
+				if bo, ok := iff.Cond.(*ssa.BinOp); ok {
+					return fromCL(bo.X) || fromCL(bo.Y)
+				}
+				return false
+			}
+			found, path := PathQuery{Target: func(in ssa.Instruction) bool { return in == ssa.Instruction(call) }, Avoid: mentions}.Search(fn, nil)
+			c.Check(hasCmp && !found, "C09.11", FuncName(fn), "collected-length-compared-with-declared", call.Pos(),
+				"the un-enveloped body is decoded only after its collected length was compared with the declared Content-Length",
+				"the transcoding writer decodes whatever it collected of an un-enveloped body without comparing its length with the Content-Length the backend declared: a protobuf message cut on a field boundary decodes fine and the truncated response is delivered as a success: "+witnessString(p, path))
+		}
+	}
+	if nB == 0 {
+		c.Bad("C09.11", FuncName(closeFn), "collected-length-compared-with-declared", closeFn.Pos(), "no finalising flush of an un-enveloped body found: shape changed")
 	}
 }
